@@ -102,12 +102,14 @@ static int32 sendf(const uint8 * b, uint32 n, void * arg)
 {
    Stream * s = (Stream *) arg; uint32 c = chunk(s); if (c > n) c = n;
    if (s->len + c > s->cap) {s->cap = (s->len + c) * 2 + 1024; s->buf = (uint8 *) realloc(s->buf, s->cap);}
-   memcpy(s->buf + s->len, b, c); s->len += c; return (int32) c;
+   if (c) memcpy(s->buf + s->len, b, c);
+   s->len += c; return (int32) c;
 }
 static int32 recvf(uint8 * b, uint32 n, void * arg)
 {
    Stream * s = (Stream *) arg; uint32 c = chunk(s); if (c > n) c = n; if (c > s->len - s->pos) c = s->len - s->pos;
-   memcpy(b, s->buf + s->pos, c); s->pos += c; return (int32) c;
+   if (c) memcpy(b, s->buf + s->pos, c);
+   s->pos += c; return (int32) c;
 }
 
 int main(void)
